@@ -57,11 +57,20 @@ package altair
 //@   opt noalloc
 //@   ensures r == bv_count(li)
 
-// fork upgrade: assumed to hand back a state view of this fork on success (C14: which upgrade runs when is verified in beacon.UpgradeMaybe)
-//@ func UpgradeToAltair(spec, epc, pre) (post, err)
+// upgrade_to_altair: the new fork record is (previous_version = the pre-state's current version, current_version =
+// ALTAIR_FORK_VERSION, epoch = the epoch of the pre-state's slot). The rest of the upgrade (field carry-over, new fields)
+// assembles tree views through the external view library and is not described; a state comes back on success.
+//@ func AsBeaconStateView(v, err0) (r, err)
 //@   trusted
-//@   assigns anything
+//@   ensures err == nil ==> r != nil
+//@ func UpgradeToAltair(spec, epc, pre) (post, err)
+//@   property C14 C02
+//@   panics off
+//@   opt weakcalls
+//@   opt inline=closures
+//@   assigns anything, ghost(n_fork_view), ghost(last_fork_view)
 //@   ensures err == nil ==> post != nil
+//@   ensures fork_record: err == nil && spec != nil && spec.SLOTS_PER_EPOCH != 0 && pre != nil ==> n_fork_view == old(n_fork_view) + 1 && last_fork_view.PreviousVersion == pst_fork_phase0(pre).CurrentVersion && last_fork_view.CurrentVersion == spec.ALTAIR_FORK_VERSION && last_fork_view.Epoch == pst_slot_phase0(pre) / spec.SLOTS_PER_EPOCH
 
 // ---------------------------------------------------------------- inactivity scores (C02)
 // The score list is an assumed view model with point-update semantics: score_at(version, view, index), where the
@@ -182,6 +191,24 @@ package altair
 //@ sort FlatA = common.FlatValidator
 //@ define att_eligible(f FlatA, prev int) bool = (f.ActivationEpoch <= prev && prev < f.ExitEpoch) || (f.Slashed && prev + 1 < f.WithdrawableEpoch)
 //@ defrec att_elig_cnt(fl FlatsA, prev int, i int) int = ite(i <= 0, 0, att_elig_cnt(fl, prev, i - 1) + ite(att_eligible(fl[i - 1], prev), 1, 0))
+
+// the concrete state's slot and fork record (assumed accessor models; read by the next fork's upgrade function)
+//@ sort StatePtr_altair = *BeaconStateView
+//@ sort ForkRec_altair = common.Fork
+//@ ufun pst_slot_err_altair(StatePtr_altair) bool
+//@ ufun pst_slot_altair(StatePtr_altair) int
+//@ ufun pst_fork_err_altair(StatePtr_altair) bool
+//@ ufun pst_fork_altair(StatePtr_altair) ForkRec_altair
+//@ func (state *BeaconStateView) Slot() (r, err)
+//@   trusted
+//@   opt noalloc
+//@   ensures (err != nil) == pst_slot_err_altair(state)
+//@   ensures err == nil ==> r == pst_slot_altair(state)
+//@ func (state *BeaconStateView) Fork() (r, err)
+//@   trusted
+//@   opt noalloc
+//@   ensures (err != nil) == pst_fork_err_altair(state)
+//@   ensures err == nil ==> r == pst_fork_altair(state)
 
 // BEGIN C18 generated (tools/gen_c18.py in /verif)
 // cancelled: a context cancelled before the call makes it fail; surfaced: a cancellation observed by a poll
